@@ -1067,6 +1067,10 @@ def reach_ids(o, acc=None, depth=0):
     return acc
 
 
+def regular_now(P):
+    return P
+
+
 class Pools:
     """factories of arguments in every accepted container form"""
     def __init__(self, rng):
@@ -1218,6 +1222,41 @@ class Pools:
         for k in ('SO3', 'SE3', 'SO2', 'SE2', 'UnitQuaternion', 'Quaternion', 'Twist3', 'Twist2'):
             SP[k + '*'] = [(lambda k=k: getattr(sm, k)([SP[k][int(r.integers(0, len(SP[k])))]().A for _ in range(3)]))]
         SP['M44n'], SP['M33n'] = SP['M44'], SP['M33']
+        # tiny magnitudes (1e-17 .. 1e-13), negative zero and exact zeros in the float positions of array arguments:
+        # thresholds such as |x| <= 100 eps select "suppress small values" branches (printing, removesmall, iszerovec ..)
+        TINY = [0.0, -0.0, 1e-17, -1e-17, 3e-16, -2e-15, 1e-14, 2e-14, -1e-13]
+
+        def tiny_of(c, base_factory):
+            def f():
+                v = base_factory()
+                form = type(v)
+                a = np.array(v, dtype=float) if not isinstance(v, np.ndarray) else v
+                if a.dtype.kind != 'f' or a.size == 0:
+                    return v
+                k = int(r.integers(1, min(3, a.size) + 1))
+                if a.shape == (4, 4) or a.shape == (3, 3) and c in ('M33se2',):
+                    n_ = a.shape[0] - 1                        # a homogeneous transform: the translation column
+                    for j in r.choice(n_, size=min(k, n_), replace=False):
+                        a[j, n_] = TINY[int(r.integers(0, len(TINY)))]
+                else:
+                    flat = a.reshape(-1) if a.flags.c_contiguous else None
+                    if flat is None:
+                        return v
+                    for j in r.choice(a.size, size=k, replace=False):
+                        flat[j] = TINY[int(r.integers(0, len(TINY)))]
+                if form in (list, tuple):
+                    return form(a.tolist())
+                return a
+            return f
+        for c in ('V1', 'V2', 'V3', 'V4', 'V6', 'M44', 'M33se2', 'M3N', 'M2N', 'M4N', 'MN3', 'MN6', 'M66', 'M33skew', 'M44aug', 'LS'):
+            if c in regular_now(P):
+                SP.setdefault(c, [])
+                SP[c] = SP[c] + [tiny_of(c, P[c]), tiny_of(c, P[c])]
+        SP['SE3'] = SP['SE3'] + [lambda: sm.SE3(SP['M44'][-1](), check=False), lambda: sm.SE3(SP['M44'][-2](), check=False)]
+        SP['SE2'] = SP['SE2'] + [lambda: sm.SE2(SP['M33se2'][-1](), check=False)]
+        SP['Twist3'] = SP['Twist3'] + [lambda: sm.Twist3(np.asarray(SP['V6'][-1](), float).flatten())]
+        SP['SpatialVelocity'] = [lambda: sm.SpatialVelocity(np.asarray(SP['V6'][-1](), float).flatten()), lambda: sm.SpatialVelocity(np.zeros(6))]
+        SP['Quaternion'] = SP['Quaternion'] + [lambda: sm.Quaternion(np.asarray(SP['V4'][-1](), float).flatten())]
         self.SP = SP
         self.psp = 0.25                      # probability that a factory hands out a special value
         regular = dict(P)
@@ -1350,6 +1389,10 @@ def signature_params(o):
         return None
     req, opt = [], []
     for p in sig.parameters.values():
+        if p.kind == p.VAR_KEYWORD and 'print' in getattr(o, '__name__', ''):
+            # printline(**kwargs) forwards to trprint / trprint2: their options are this function's options
+            opt += [inspect.Parameter('orient', p.KEYWORD_ONLY, default='rpy/zyx'), inspect.Parameter('unit', p.KEYWORD_ONLY, default='deg'),
+                    inspect.Parameter('fmt', p.KEYWORD_ONLY, default='{:8.2g}'), inspect.Parameter('label', p.KEYWORD_ONLY, default=None)]
         if p.kind in (p.VAR_POSITIONAL, p.VAR_KEYWORD):
             continue
         (req if p.default is p.empty and p.kind != p.KEYWORD_ONLY else opt).append(p)
@@ -1367,8 +1410,42 @@ class Harness:
         self.attempts = {}
         self.nmut = 0
         self.registry = {}
+        self.ndet = 0
+        self.module_arrays = module_level_arrays()
+        self.probes = self.make_probes()
         self.cur_key = None
         self.reached = {}
+
+    # ------------------------------------------------------------ probes: a fixed sample of other calls with known outputs
+    def make_probes(self):
+        base, sm = self.pools.base, self.pools.sm
+        w = [0.1, -0.2, 0.3]
+        T = base.rt2tr(base.rpy2r(0.1, 0.2, 0.3), [1.0, 2.0, 3.0])
+        cand = [('base.trexp([0.1,-0.2,0.3])', lambda: base.trexp(w)), ('base.trexp([0,0,0])', lambda: base.trexp([0.0, 0, 0])),
+                ('base.rodrigues([0,0,0])', lambda: base.rodrigues([0.0, 0, 0])), ('base.trexp2(0.0)', lambda: base.trexp2(0.0)),
+                ('base.trexp2(0.4)', lambda: base.trexp2(0.4)), ('base.rotx(0.3)', lambda: base.rotx(0.3)), ('base.trnorm(T)', lambda: base.trnorm(T.copy())),
+                ('base.trinv(T)', lambda: base.trinv(T.copy())), ('base.angvec2r(0.0,[1,0,0])', lambda: base.angvec2r(0.0, [1, 0, 0])),
+                ('SE3.Rx(0.3).A', lambda: sm.SE3.Rx(0.3).A), ('SO3.Exp([0,0,0]).A', lambda: sm.SO3.Exp([0.0, 0, 0]).A),
+                ('SE3(T).inv().A', lambda: sm.SE3(T.copy()).inv().A), ('UnitQuaternion.Rx(0.3).vec', lambda: sm.UnitQuaternion.Rx(0.3).vec),
+                ('Twist3([1,2,3,.1,.2,.3]).exp().A', lambda: sm.Twist3([1, 2, 3, 0.1, 0.2, 0.3]).exp().A), ('base.q2r([1,0,0,0])', lambda: base.q2r([1.0, 0, 0, 0])),
+                ('Plucker.PQ([0,0,0],[1,2,3]).uw', lambda: sm.Plucker.PQ([0, 0, 0], [1, 2, 3]).uw)]
+        out = []
+        for nm, f in cand:
+            ok, v = self.guarded(f, [], {})
+            if ok:
+                out.append((nm, f, copy.deepcopy(v)))
+        return out
+
+    def run_probe(self):
+        """one probe; returns (name, value) when it no longer returns its reference value"""
+        if not self.probes:
+            return None
+        nm, f, ref = self.probes[int(self.ctx.rng.integers(0, len(self.probes)))]
+        ok, v = self.guarded(f, [], {})
+        self.ctx.count('probe_calls')
+        if not ok or not same_value(ref, v):
+            return nm, srepr(v, 200)
+        return None
 
     # ------------------------------------------------------------ one call under snapshots
     def guarded(self, f, args, kwargs):
@@ -1415,18 +1492,65 @@ class Harness:
             d = diff(a, b) or ''
             self.report_mutation(key, role, d, kind, owner, name, args, kwargs, config, ok, res)
         if ok and twin is not None and check_det:
+            # "the same call twice on equal inputs returns equal outputs" -- also when the caller has meanwhile
+            # overwritten the arrays the first call returned (every second re-run): a result that aliases persistent
+            # state (a module-level / cached array) poisons the later call
+            self.ndet += 1
+            arrays = [a for a in _arrays_of(res) if a.dtype.kind == 'f' and a.flags.writeable and a.size] if self.ndet % 2 == 0 else []
+            first_snap, first_copy, saved = snap(res), None, []
+            ins = _arrays_of(all_objs)
+            for a in _arrays_of(res):
+                for nm, g in self.module_arrays:
+                    if a is g or np.shares_memory(a, g):
+                        ctx.fail(f"alias:result-shares-module-level-array:{key}",
+                                 f"{key} returns an array that shares memory with the module-level / class-level object {nm}",
+                                 {'history': [f"r = {key}({', '.join(srepr(x, 120) for x in twin[0])}{', ' if twin[1] else ''}{', '.join(k_ + '=' + srepr(v, 60) for k_, v in twin[1].items())})",
+                                              f"np.shares_memory(r, {nm})  -> True"], 'shared_with': nm})
+            if arrays:
+                try:
+                    first_copy = copy.deepcopy(res)
+                    for a in arrays:
+                        saved.append((a, a.copy()))
+                    for a in arrays:
+                        a.fill(np.nan)
+                    ctx.count('poisoned_results')
+                except Exception:
+                    for a, c in saved:
+                        a[...] = c
+                    saved, first_copy = [], None
             ok2, res2 = self.guarded(f, copy.deepcopy(twin[0]), copy.deepcopy(twin[1]))
+            probe = self.run_probe() if saved else None
+            for a, c in saved:                                   # undo the poisoning
+                a[...] = c
             ctx.count('determinism_checks')
-            same = ok2 and (snap(res) == snap(res2) or same_value(res, res2))
-            if ok2 and same and snap(res) != snap(res2):
+            ref = first_copy if first_copy is not None else res
+            same = ok2 and (first_snap == snap(res2) or same_value(ref, res2))
+            if ok2 and same and first_snap != snap(res2):
                 ctx.count('determinism_equal_up_to_rounding_only')
+            hist = [f"r1 = {key}({', '.join(srepr(x, 120) for x in twin[0])}{', ' if twin[1] else ''}{', '.join(k_ + '=' + srepr(v, 60) for k_, v in twin[1].items())})"]
+            if saved:
+                hist.append("for every float ndarray a reachable from r1:  a.fill(nan)      # the caller overwrites ITS result in place")
+            hist.append("r2 = the same call on fresh, equal inputs")
             if not same and ok2:
-                # equal up to NaN payload / -0.0 is still "equal outputs"? no: bit-for-bit is what we compare
-                ctx.fail(f"determinism:{key}", f"{key}: the same call on equal inputs returned different outputs",
-                         {'callable': key, 'args': [srepr(a, 300) for a in all_objs], 'first': srepr(res, 400), 'second': srepr(res2, 400)})
+                k_ = f"poison:{key}" if saved else f"determinism:{key}"
+                ctx.fail(k_, f"{key}: the same call on equal inputs returned different outputs" +
+                         (" after the arrays returned by the first call were overwritten in place (the result aliases persistent state)" if saved else ''),
+                         {'callable': key, 'history': hist + ['r2 != r1 (as first returned)'], 'first': srepr(ref, 400), 'second': srepr(res2, 400),
+                          'inputs_pickle_hex': _try_pickle(twin)})
             elif not ok2:
-                ctx.fail(f"determinism:{key}:raises-second-time", f"{key}: succeeds once, raises {type(res2).__name__} on equal inputs",
-                         {'callable': key, 'args': [srepr(a, 300) for a in all_objs], 'error': srepr(res2, 300)})
+                k_ = f"poison:{key}:raises-second-time" if saved else f"determinism:{key}:raises-second-time"
+                ctx.fail(k_, f"{key}: succeeds once, raises {type(res2).__name__} on equal inputs" + (" after its first result was overwritten in place" if saved else ''),
+                         {'callable': key, 'history': hist + [f"raises {srepr(res2, 200)}"], 'inputs_pickle_hex': _try_pickle(twin)})
+            if probe is not None:
+                ctx.fail(f"poison:{key}:corrupts:{probe[0]}", f"overwriting the result of {key} in place changes what {probe[0]} returns afterwards",
+                         {'history': hist[:2] + [f"{probe[0]}  now returns {probe[1]}"], 'inputs_pickle_hex': _try_pickle(twin)})
+            if ok2:
+                r2 = _arrays_of(res2)
+                if any(a is b or np.shares_memory(a, b) for a in _arrays_of(res) for b in r2):
+                    ctx.fail(f"alias:independent-results-share-memory:{key}",
+                             f"{key}: the results of two independent calls (disjoint, equal inputs) share memory",
+                             {'callable': key, 'history': hist[:1] + ['r2 = the same call on fresh, equal inputs', 'np.shares_memory(r1, r2)  -> True'],
+                              'inputs_pickle_hex': _try_pickle(twin)})
         self.attempts[key] = self.attempts.get(key, 0) + 1
         if ok:
             self.success[key] = self.success.get(key, 0) + 1
@@ -1522,6 +1646,8 @@ class Harness:
                 for i in range(2 + (directed or 0) // 4):
                     rec = P.special(variant) if i % 2 else P.P[variant]()
                     self.call(kind, owner, name, lambda s: o.fget(s), ['receiver'], [rec], {}, config=config)
+            if directed and not config:
+                self.ownership_sweep(kind, owner, name, o, 2)
             return
         target = o
         sp = signature_params(target)
@@ -1551,6 +1677,8 @@ class Harness:
                     break
         if directed and (got or not req):
             self.directed(kind, owner, name, target, req, opt, takes_self, directed, config)
+            if not config:
+                self.ownership_sweep(kind, owner, name, o, 3)
 
     def directed(self, kind, owner, name, target, req, opt, takes_self, n, config='', intense=False):
         """special values x option keywords x receiver forms x correlated arguments, on the argument-type tuples that
@@ -1608,6 +1736,141 @@ class Harness:
             self.ctx.count('directed_calls')
             self.call(kind, owner, name, target, roles, vals_, kw, config=config, check_det=(i % 3 == 0))
 
+    # ------------------------------------------------------------ ownership: two-step histories
+    MUTATORS = ('append', 'extend', 'insert', 'pop', 'reverse', 'clear', '__setitem__')
+
+    @staticmethod
+    def is_listobj(x):
+        return isinstance(getattr(x, 'data', None), list) and type(x).__module__.startswith('spatialmath')
+
+    @staticmethod
+    def family(x):
+        """the root class of the library the object belongs to (findings are keyed by root cause, not by subclass)"""
+        fam = type(x).__name__
+        for k in type(x).__mro__:
+            if k.__module__.startswith('spatialmath') and k.__name__ != 'SMUserList':
+                fam = k.__name__
+        return fam
+
+    def valued(self, x, before=False):
+        if before:
+            return self._valued_before
+        if isinstance(x, list):
+            return 'python-list'
+        try:
+            return 'multi-valued' if len(x) > 1 else 'single-valued'
+        except Exception:
+            return 'object'
+
+    def mutate(self, x, m):
+        """apply the documented list mutator m to x (an object of the library holding a list, or a Python list)"""
+        if isinstance(x, list):
+            e = copy.deepcopy(x[0]) if x else 0.0
+            f = {'append': lambda: x.append(e), 'extend': lambda: x.extend([e]), 'insert': lambda: x.insert(0, e), 'pop': lambda: x.pop(),
+                 'reverse': lambda: x.reverse(), 'clear': lambda: x.clear(), '__setitem__': lambda: x.__setitem__(0, e)}[m]
+        else:
+            cn = type(x).__name__
+            try:
+                e = self.pools.regular[cn]() if cn in self.pools.regular else copy.deepcopy(x)[0]
+            except Exception:
+                e = copy.deepcopy(x)
+            f = {'append': lambda: x.append(e), 'extend': lambda: x.extend(copy.deepcopy(x)), 'insert': lambda: x.insert(0, e), 'pop': lambda: x.pop(),
+                 'reverse': lambda: x.reverse(), 'clear': lambda: x.clear(), '__setitem__': lambda: x.__setitem__(0, e)}[m]
+        return self.guarded(lambda: f(), [], {})[0]
+
+    def ownership(self, key, f, pristine, roles):
+        """after a constructor / conversion: apply each documented mutator to the RESULT and check that every ARGUMENT is
+        byte-identical; then the other way round (mutate an argument afterwards, check the result).  Also reports (as a
+        statistic, not a finding) results whose arrays are the caller's arrays."""
+        ctx = self.ctx
+        args, kw = copy.deepcopy(pristine)
+        ok, res = self.guarded(f, args, kw)
+        if not ok or not self.is_listobj(res):          # a Python list handed out by an accessor (X.A) is the caller's to change
+            return False
+        objs = list(args) + [kw[k] for k in sorted(kw)]
+        rl = list(roles) + [f"arg:{k}" for k in sorted(kw)]
+        targets = [i for i, x in enumerate(objs) if (self.is_listobj(x) or (isinstance(x, list) and x)) and x is not res]
+        if not targets:
+            return False
+        if any(a is b for a in _arrays_of(res) for i in targets for b in _arrays_of(objs[i])):
+            ctx.count('results_holding_the_arguments_arrays_by_reference')
+        call_txt = f"r = {key}({', '.join(srepr(x, 100) for x in pristine[0])}{', ' if pristine[1] else ''}{', '.join(k + '=' + srepr(v, 60) for k, v in pristine[1].items())})"
+        for m in self.MUTATORS:
+            # (a) mutate the result, look at the arguments
+            args, kw = copy.deepcopy(pristine)
+            ok, res = self.guarded(f, args, kw)
+            if not ok:
+                return True
+            objs = list(args) + [kw[k] for k in sorted(kw)]
+            before = [snap(objs[i]) for i in targets]
+            self.mutate(res, m)
+            ctx.count('ownership_steps')
+            ctx.case(('ownership', key, m, 'result'))
+            for i, b in zip(targets, before):
+                a = snap(objs[i])
+                if a != b and objs[i] is not res:
+                    ctx.fail(f"ownership:{self.family(res)}:{self.valued(objs[i])}-argument:mutating-the-result-changes-the-argument",
+                             f"{key}: r.{m}(..) on the RESULT changes the {rl[i]} that was passed in (the list is shared): {diff(b, a)}",
+                             {'history': [call_txt, f"r.{m}(..)", f"the {rl[i]} of the first call is no longer what it was: {diff(b, a)}"],
+                              'inputs_pickle_hex': _try_pickle(pristine)})
+            # (b) mutate an argument afterwards, look at the result
+            for i in targets:
+                args, kw = copy.deepcopy(pristine)
+                ok, res = self.guarded(f, args, kw)
+                if not ok:
+                    break
+                objs = list(args) + [kw[k] for k in sorted(kw)]
+                if objs[i] is res:
+                    continue
+                b = snap(res)
+                self._valued_before = self.valued(objs[i])
+                self.mutate(objs[i], m)
+                ctx.count('ownership_steps')
+                a = snap(res)
+                if a != b:
+                    ctx.fail(f"ownership:{self.family(res)}:{self.valued(objs[i], True)}-argument:mutating-the-argument-changes-the-result",
+                             f"{key}: {m}(..) on the {rl[i]} AFTER the call changes the result obtained earlier (the list is shared): {diff(b, a)}",
+                             {'history': [call_txt, f"<{rl[i]}>.{m}(..)", f"r is no longer what it was: {diff(b, a)}"],
+                              'inputs_pickle_hex': _try_pickle(pristine)})
+        return True
+
+    def ownership_sweep(self, kind, owner, name, o, tries):
+        P, r = self.pools, self.ctx.rng
+        key = f"{owner + '.' if owner else ''}{name}"
+        if name in DOCUMENTED_MUTATORS or name in LEFT_MAY_CHANGE:
+            return
+        if kind == 'prop':
+            f, req, opt, takes_self = (lambda s_: o.fget(s_)), [], [], True
+        else:
+            sp = signature_params(o)
+            if sp is None:
+                return
+            req, opt = sp
+            f, takes_self = o, kind == 'meth'
+            if takes_self:
+                if not req:
+                    return
+                req = req[1:]
+        good = sorted(set(self.good.get(key, []))) or ([()] if not req else [])
+        if not good:
+            return
+        roles = (['receiver'] if takes_self else []) + [f"arg:{p.name}" for p in req]
+        for t in range(tries):
+            cats = good[int(r.integers(0, len(good)))]
+            vals = [P.regular[c]() for c in cats]
+            # prefer arguments that hold a list: an object of the owner's class (single / multi valued)
+            for j, p in enumerate(req):
+                if owner and t % 2 == 0 and p.name in ('value', 'arg', 'x', 'other', 'right', 'item', 'iterable', 'v', 's', 'T', 'q', 'S', 'twist', 'line'):
+                    for cand in (owner + '*', owner):
+                        if cand in P.regular and r.random() < 0.7:
+                            vals[j] = P.regular[cand]()
+                            break
+            if takes_self:
+                variant = owner + '*' if (owner + '*' in P.regular and r.random() < 0.6) else owner
+                vals = [P.regular[variant]()] + vals
+            if not self.ownership(key, f, (vals, {}), roles) and t >= 1:
+                break
+
     def intensify(self, rejected_fullnames, reached, total):
         """the static analyser rejects a function that is not a known finding: look hard for a concrete failing call
         among the public callables that were seen to execute it"""
@@ -1628,6 +1891,7 @@ class Harness:
         try:
             for k in keys[:60]:
                 kind, owner, name, o = self.registry[k]
+                self.ownership_sweep(kind, owner, name, o, 12)
                 if kind == 'prop':
                     self.exercise(kind, owner, name, o, 0, 0, directed=per)
                     continue
@@ -1890,6 +2154,36 @@ def validate_fresh_table(ctx, tr):
                              {'callable': name, 'argument_types': [type(a).__name__ for a in t]})
     ctx.stats['fresh_table_entries_used'] = sorted(tr.used_fresh)
     ctx.stats['fresh_table_validation_calls'] = n
+
+
+def module_level_arrays():
+    """(name, ndarray) for every array held at module level or class level of the library (directly or in a dict / list / tuple)"""
+    out = []
+
+    def add(nm, v, depth=0):
+        if isinstance(v, np.ndarray):
+            out.append((nm, v))
+        elif isinstance(v, dict) and depth < 2:
+            for k, x in list(v.items())[:200]:
+                add(f"{nm}[{k!r}]", x, depth + 1)
+        elif isinstance(v, (list, tuple)) and depth < 2:
+            for i, x in enumerate(v[:200]):
+                add(f"{nm}[{i}]", x, depth + 1)
+    for mname, mod in sorted(sys.modules.items()):
+        if mname.startswith('spatialmath') and mod is not None:
+            for n, v in list(vars(mod).items()):
+                if not n.startswith('__'):
+                    add(f"{mname}.{n}", v)
+                if isinstance(v, type) and v.__module__.startswith('spatialmath'):
+                    for n2, v2 in list(vars(v).items()):
+                        if not n2.startswith('__'):
+                            add(f"{mname}.{n}.{n2}", v2)
+    seen, res = set(), []
+    for nm, a in out:
+        if id(a) not in seen:
+            seen.add(id(a))
+            res.append((nm, a))
+    return res
 
 
 def class_state(pools):
